@@ -719,7 +719,7 @@ Chars(ps, mode, cls, data) ==
         ELSE IF CurName(ps) = N_html THEN NoRe(ps) ELSE Rep([Pop(ps) EXCEPT !.mode = "inTable"])
     [] mode \in {"inSelect", "inSelectInTable"} -> IF cls = "nul" THEN NoRe(ps) ELSE NoRe(InsertTextCur(ps, data))
     [] mode = "afterBody" ->
-        IF cls = "ws" THEN NoRe(IF Std("tc-afterbody-space") THEN InsertTextCur(Reconstruct(ps), data) ELSE InsertTextCur(ps, data))
+        IF cls = "ws" THEN (IF Std("tc-afterbody-space") THEN Chars(ps, "inBody", cls, data) ELSE NoRe(InsertTextCur(ps, data)))
         ELSE Rep([ps EXCEPT !.mode = "inBody"])
     [] mode \in {"inFrameset", "afterFrameset"} -> IF cls = "ws" THEN NoRe(InsertTextCur(ps, data)) ELSE NoRe(ps)
     [] mode = "afterAfterBody" -> IF cls = "ws" THEN Chars(ps, "inBody", cls, data) ELSE Rep([ps EXCEPT !.mode = "inBody"])
